@@ -28,14 +28,19 @@ def main():
     faulthandler.dump_traceback_later(spec.get('watchdog_s', 100), exit=True)
 
     root = spec['root']
-    world = os.path.join(root, 'w')
+    world = os.path.join(root, spec.get('world_dir') or 'w')
     cache = os.path.join(root, 'cache')
     sentinel = os.path.join(root, 'sentinel')
     for d in (world, cache, sentinel, os.path.join(root, 'home')):
         os.makedirs(d, exist_ok=True)
     os.environ['HOME'] = os.path.join(root, 'home')
     os.environ['JV_SENTINEL_DIR'] = sentinel
-    os.chdir(os.path.join(root, spec['cwd']) if spec.get('cwd') else root)
+    for rel in spec.get('extra_pythonpath') or []:
+        # entries of the ENVIRONMENT's sys.path (inherited by the helper through PYTHONPATH)
+        p = os.path.normpath(os.path.join(root, rel))
+        os.makedirs(p, exist_ok=True)
+        os.environ['PYTHONPATH'] = os.environ.get('PYTHONPATH', '') + os.pathsep + p
+    os.chdir(world if spec.get('cwd') else root)
 
     if spec.get('host_path_empty_entry'):
         # like an interactive session, `python -c` or an embedding host: '' is on sys.path
@@ -194,44 +199,26 @@ class Subject:
         self.stamper.sweep()
         self.host_base = self.host_state()
         for i in range(start, end):
-            op = ops[i]
-            n0 = self.proxy.req_counter
-            f0 = len(self.proxy.fired)
-            self.proxy.current_ids = set()
-            ev = {'i': i, 'op': op['op']}
-            try:
-                res = self.dispatch(op)
-            except HarnessError as e:
-                ev['harness_error'] = str(e)
-                res = None
-            ev['res'] = res
-            ev['reqs'] = [n0 + 1, self.proxy.req_counter]
-            fired = self.proxy.fired[f0:]
-            if fired:
-                ev['fired'] = fired
-            ev['fns'] = [r['fn'] for r in self.proxy.reqlog[n0:self.proxy.req_counter]] \
-                if spec.get('log_fns') else None
-            if ev['fns'] is None:
-                del ev['fns']
-            ev['gen'] = len(self.proxy.generations)
-            if any(r.get('on_dead') for r in self.proxy.reqlog[n0:self.proxy.req_counter]):
-                ev['on_dead'] = True
-                ev['on_dead_gens'] = sorted({r['gen'] for r in self.proxy.reqlog[n0:self.proxy.req_counter]
-                                             if r.get('on_dead')})
-            if op['op'] == 'script' and getattr(self, 'last_bound_gen', None) is not None and res == 'ok':
-                ev['bound_gen'] = self.last_bound_gen
-            cnt = self.rec.take()
-            if cnt:
-                ev['cache'] = cnt
-            self.stamper.sweep()
-            bad = self.check_invariants(op)
-            if bad:
-                ev['inv_bad'] = bad
-            if 'snap' in self.inv:
-                ev['snap'] = self.last_snap
-            ev['now'] = self.clock.ns
+            ev = self.exec_op(i, ops[i])
             out.write(json.dumps(ev, sort_keys=True) + '\n')
             out.flush()
+        if spec.get('interactive'):
+            # further ops arrive one JSON line at a time on stdin; each event is echoed on stdout
+            i = end
+            for line in sys.stdin:
+                line = line.strip()
+                if not line:
+                    continue
+                op = json.loads(line)
+                if op.get('op') == 'quit':
+                    break
+                ev = self.exec_op(i, op)
+                txt = json.dumps(ev, sort_keys=True)
+                out.write(txt + '\n')
+                out.flush()
+                sys.stdout.write('EV ' + txt + '\n')
+                sys.stdout.flush()
+                i += 1
         out.write(json.dumps({'i': 'end', 'fired': self.proxy.fired,
                               'gens': len(self.proxy.generations),
                               'reqs': self.proxy.req_counter,
@@ -240,6 +227,45 @@ class Subject:
         out.close()
         sys.stdout.flush()
         os._exit(0)
+
+    def exec_op(self, i, op):
+        spec = self.spec
+        n0 = self.proxy.req_counter
+        f0 = len(self.proxy.fired)
+        self.proxy.current_ids = set()
+        ev = {'i': i, 'op': op['op']}
+        try:
+            res = self.dispatch(op)
+        except HarnessError as e:
+            ev['harness_error'] = str(e)
+            res = None
+        ev['res'] = res
+        ev['reqs'] = [n0 + 1, self.proxy.req_counter]
+        fired = self.proxy.fired[f0:]
+        if fired:
+            ev['fired'] = fired
+        ev['fns'] = [r['fn'] for r in self.proxy.reqlog[n0:self.proxy.req_counter]] \
+            if spec.get('log_fns') else None
+        if ev['fns'] is None:
+            del ev['fns']
+        ev['gen'] = len(self.proxy.generations)
+        if any(r.get('on_dead') for r in self.proxy.reqlog[n0:self.proxy.req_counter]):
+            ev['on_dead'] = True
+            ev['on_dead_gens'] = sorted({r['gen'] for r in self.proxy.reqlog[n0:self.proxy.req_counter]
+                                         if r.get('on_dead')})
+        if op['op'] == 'script' and getattr(self, 'last_bound_gen', None) is not None and res == 'ok':
+            ev['bound_gen'] = self.last_bound_gen
+        cnt = self.rec.take()
+        if cnt:
+            ev['cache'] = cnt
+        self.stamper.sweep()
+        bad = self.check_invariants(op)
+        if bad:
+            ev['inv_bad'] = bad
+        if 'snap' in self.inv:
+            ev['snap'] = self.last_snap
+        ev['now'] = self.clock.ns
+        return ev
 
     # ------------------------------------------------------------------
     def dispatch(self, op):
